@@ -1156,12 +1156,6 @@ def e_bfs_configs(tier):
 # ----------------------------------------------------------------------------
 # shards, run, replay
 
-def chunks(seq, n):
-    seq = list(seq)
-    k = max(1, (len(seq) + n - 1) // n)
-    return [seq[i:i + k] for i in range(0, len(seq), k)]
-
-
 def shard_func(shard, acc):
     what = shard[0]
     with Env() as env:
